@@ -821,4 +821,271 @@ theorem attemptsX_clean (c : CfgX) (io : Script) (hc : io.Clean) (i k m : Nat) (
     have hw := hc.1 i
     simp [hm ▸ hi, attemptStepX, hw, hs', hk, OpX.forget, hto, hlat]
 
+/-! ### the shape of a trace: what directly follows what -/
+
+/-- every action of a trace satisfies `P` together with the action that directly follows it (`none` at the end) -/
+def Adj (P : OpX → Option OpX → Prop) : List OpX → Prop
+  | [] => True
+  | a :: rest => P a rest.head? ∧ Adj P rest
+
+theorem adj_append {P : OpX → Option OpX → Prop} (a b : List OpX) (ha : Adj P a) (hb : Adj P b)
+    (hj : ∀ x, a.getLast? = some x → P x b.head?) : Adj P (a ++ b) := by
+  induction a with
+  | nil => simpa using hb
+  | cons x a ih =>
+    cases a with
+    | nil => exact ⟨by simpa using hj x rfl, by simpa using hb⟩
+    | cons y a =>
+      exact ⟨by simpa using ha.1, ih ha.2 (fun z hz => hj z (by simpa [List.getLast?_cons_cons] using hz))⟩
+
+theorem adj_split {P : OpX → Option OpX → Prop} (pre : List OpX) (a : OpX) (rest : List OpX)
+    (h : Adj P (pre ++ a :: rest)) : P a rest.head? := by
+  induction pre with
+  | nil => exact h.1
+  | cons x pre ih => exact ih h.2
+
+/-- what may directly follow an action in the trace of one request -/
+def okNext (io : Script) : OpX → Option OpX → Prop
+  | .wr _ .ok _, nxt => ∃ k t d, nxt = some (.rd k t d)             -- a write that went out is followed by its read
+  | .wr _ .timeout _, nxt => ∀ o ∈ nxt, ∃ d, o = .sl d              -- a failed write: backoff or the end, never a read
+  | .wr _ .connErr _, nxt => ∀ o ∈ nxt, ∃ d, o = .sl d
+  | .rd k _ _, nxt => io.rd k = .pending → ∀ o ∈ nxt, o.isRd = true  -- responsePending: keep reading
+  | .sl _, nxt => ∃ o, nxt = some o ∧ (o.isWr = true ∨ o.isRc = true)
+  | .rc .ok, nxt => ∃ o, nxt = some o ∧ o.isWr = true               -- reconnected: retransmit
+  | .rc (.fail _), nxt => nxt = none                                -- a failed reconnect ends the request
+
+/-- the lifted trace of a responsePending loop, followed by `rest` -/
+theorem adj_pend (c : CfgX) (io : Script) (t : List Op) (rest : List OpX) (h : ∀ op ∈ t, op.isRd = true)
+    (hr : Adj (okNext io) rest)
+    (hl : rest = [] ∨ ∀ j tm d, t.getLast? = some (.rd j tm d) → io.rd j ≠ .pending) :
+    Adj (okNext io) (t.map (liftPend c) ++ rest) := by
+  induction t with
+  | nil => simpa using hr
+  | cons o t ih =>
+    have ho := h o (by simp)
+    cases o with
+    | rd j tm d =>
+      have ht := ih (fun op hop => h op (List.mem_cons_of_mem _ hop))
+      cases t with
+      | nil =>
+        refine ⟨?_, by simpa using hr⟩
+        simp only [List.map_nil, liftPend, okNext]
+        rcases hl with rfl | hl
+        · simp
+        · intro hp; exact absurd hp (hl j tm d rfl)
+      | cons o' t' =>
+        have ho' := h o' (by simp)
+        refine ⟨?_, ht (hl.imp id (fun hl j tm d e => hl j tm d (by simpa [List.getLast?_cons_cons] using e)))⟩
+        cases o' <;> simp_all [liftPend, okNext, Op.isRd, OpX.isRd]
+    | _ => simp [Op.isRd] at ho
+
+/-- the actions of one attempt are well-formed up to what follows the attempt -/
+def StepAdj (c : CfgX) (io : Script) (i : Nat) : StepX → Prop
+  | .fin _ t => Adj (okNext io) t
+  | .next t _ _ _ => ∀ rest, Adj (okNext io) rest →
+      ((∃ a r d, rest.head? = some (.wr a r d)) ∧ i < c.maxRetry) ∨ (rest = [] ∧ c.maxRetry ≤ i) →
+      Adj (okNext io) (t ++ rest)
+
+/-- `t` may be followed by a backoff sleep or by nothing -/
+def Hsl (io : Script) (t : List OpX) : Prop :=
+  ∀ rest, (rest = [] ∨ ∃ d, rest.head? = some (.sl d)) → Adj (okNext io) rest → Adj (okNext io) (t ++ rest)
+
+theorem StepAdj.fault (c : CfgX) (io : Script) (i k m : Nat) (rc : Bool) (t : List OpX) (h : Hsl io t) :
+    StepAdj c io i (faultX c io i k m rc t) := by
+  rcases faultX_cases c io i k m rc t with ⟨h1, _, h'⟩ | ⟨h1, _, _, h'⟩ | ⟨e, _, _, _, h'⟩ | ⟨h1, h'⟩ <;> rw [h']
+  · intro rest hr hh
+    rcases hh with ⟨⟨a, r, d, hd⟩, _⟩ | ⟨_, h2⟩
+    · rw [List.append_assoc]
+      exact h _ (.inr ⟨_, rfl⟩) ⟨by simp [okNext, hd], hr⟩
+    · omega
+  · intro rest hr hh
+    rcases hh with ⟨⟨a, r, d, hd⟩, _⟩ | ⟨_, h2⟩
+    · rw [List.append_assoc]
+      exact h _ (.inr ⟨_, rfl⟩) ⟨by simp [okNext], by simp [okNext, hd], hr⟩
+    · omega
+  · exact h _ (.inr ⟨_, rfl⟩) ⟨by simp [okNext], by simp [okNext], trivial⟩
+  · intro rest hr hh
+    rcases hh with ⟨_, h2⟩ | ⟨rfl, _⟩
+    · omega
+    · exact h [] (.inl rfl) trivial
+
+theorem hsl_of_rd (io : Script) (a : Option Nat) (k : Nat) (tmo : Option Nat) (d : Nat) (hk : io.rd k ≠ .pending) :
+    Hsl io [.wr a .ok 0, .rd k tmo d] := by
+  intro rest _ hr
+  exact ⟨by simp [okNext], by simp [okNext, hk], hr⟩
+
+theorem step_adj (c : CfgX) (io : Script) (i k m : Nat) (last : Out) :
+    StepAdj c io i (attemptStepX c io i k m last) := by
+  fun_cases attemptStepX c io i k m last
+  · refine StepAdj.fault c io i k m false _ ?_
+    intro rest hh hr
+    refine ⟨?_, hr⟩
+    rcases hh with rfl | ⟨d, hd⟩ <;> simp_all [okNext]
+  · refine StepAdj.fault c io i k m true _ ?_
+    intro rest hh hr
+    refine ⟨?_, hr⟩
+    rcases hh with rfl | ⟨d, hd⟩ <;> simp_all [okNext]
+  · rename_i _ hk; exact StepAdj.fault c io i (k+1) m false _ (hsl_of_rd io _ k _ _ (by simp [hk]))
+  · rename_i _ hk; exact StepAdj.fault c io i (k+1) m true _ (hsl_of_rd io _ k _ _ (by simp [hk]))
+  · rename_i _ hk; exact StepAdj.fault c io i (k+1) m true _ (hsl_of_rd io _ k _ _ (by simp [hk]))
+  · rename_i _ hk _; exact ⟨by simp [okNext], by simp [okNext, hk], trivial⟩
+  · rename_i _ hk hl
+    intro rest hr hh
+    rcases hh with ⟨⟨a, r, d, hd⟩, _⟩ | ⟨_, h2⟩
+    · exact ⟨by simp [okNext], by simp [okNext, hk], by simp [okNext, hd], hr⟩
+    · omega
+  · rename_i _ hk; exact ⟨by simp [okNext], by simp [okNext, hk], trivial⟩
+  · rename_i _ hk; exact ⟨by simp [okNext], by simp [okNext, hk], trivial⟩
+  · rename_i _ hk; exact ⟨by simp [okNext], by simp [okNext, hk], trivial⟩
+  · rename_i _ hk; exact ⟨by simp [okNext], by simp [okNext, hk], trivial⟩
+  all_goals
+    rename_i hw hk _ t hp
+    have ar := pend_all_rd c.base io.rd (k+1) 1 0
+    have pos := (pend_facts c.base io.rd (k+1) 1 0).pos
+    rw [hp] at ar pos
+    simp only at ar pos
+    have hhead : ∀ rest, ∀ o ∈ (t.map (liftPend c) ++ rest).head?, o.isRd = true := by
+      intro rest o ho
+      cases t with
+      | nil => simp at pos
+      | cons x t =>
+        simp at ho; subst ho
+        have := ar x (by simp)
+        cases x <;> simp_all [liftPend, Op.isRd, OpX.isRd]
+  · have := adj_pend c io t [] ar trivial (.inl rfl)
+    simp only [List.append_nil] at this
+    exact ⟨by simp [okNext], fun _ => by simpa using hhead [], this⟩
+  · have pl := pend_last c.base io.rd (k+1) 1 0 (by rw [hp]; simp)
+    rw [hp] at pl; simp only at pl
+    intro rest hr hh
+    exact ⟨by simp [okNext], fun _ => by simpa using hhead rest, adj_pend c io t rest ar hr (.inr pl)⟩
+  · have pl := pend_last c.base io.rd (k+1) 1 0 (by rw [hp]; simp)
+    rw [hp] at pl; simp only at pl
+    refine StepAdj.fault c io i _ m true _ ?_
+    intro rest hh hr
+    exact ⟨by simp [okNext], fun _ => by simpa using hhead rest, adj_pend c io t rest ar hr (.inr pl)⟩
+
+theorem step_head (c : CfgX) (io : Script) (i k m : Nat) (last : Out) :
+    ∃ a r d rest, (attemptStepX c io i k m last).ops = .wr a r d :: rest := by
+  fun_cases attemptStepX c io i k m last
+  all_goals first
+    | exact ⟨_, _, _, _, rfl⟩
+    | (rcases faultX_cases c io i _ m _ _ with ⟨_, _, h'⟩ | ⟨_, _, _, h'⟩ | ⟨e, _, _, _, h'⟩ | ⟨_, h'⟩ <;>
+        rw [h'] <;> exact ⟨_, _, _, _, rfl⟩)
+
+theorem attemptsX_head (c : CfgX) (io : Script) (i k m : Nat) (last : Out) (hi : i ≤ c.maxRetry) :
+    ∃ a r d, (attemptsX c io i k m last).2.head? = some (.wr a r d) := by
+  obtain ⟨a, r, d, rest, h⟩ := step_head c io i k m last
+  rw [attemptsX]
+  have : ¬ c.maxRetry < i := by omega
+  simp only [this, dite_false]
+  cases hst : attemptStepX c io i k m last with
+  | fin o t => rw [hst] at h; simp only [StepX.ops] at h; exact ⟨a, r, d, by simp [h]⟩
+  | next t k' m' l => rw [hst] at h; simp only [StepX.ops] at h; exact ⟨a, r, d, by simp [preX, h]⟩
+
+theorem attemptsX_adj (c : CfgX) (io : Script) (i k m : Nat) (last : Out) :
+    Adj (okNext io) (attemptsX c io i k m last).2 := by
+  fun_induction attemptsX c io i k m last with
+  | case1 => trivial
+  | case2 i k m last _ o t hst =>
+    have sa := step_adj c io i k m last
+    rw [hst] at sa
+    exact sa
+  | case3 i k m last _ t k' m' l hst ih =>
+    have sa := step_adj c io i k m last
+    rw [hst] at sa
+    refine sa _ ih ?_
+    by_cases hl : i < c.maxRetry
+    · exact .inl ⟨attemptsX_head c io (i+1) k' m' l (by omega), hl⟩
+    · exact .inr ⟨by rw [attemptsX_done c io (i+1) k' m' l (by omega)], by omega⟩
+
+/-! ### a failed reconnect -/
+
+theorem impliedX_rcfail {B : Bounds} {io : Script} {ph : PhaseX} {b j k m mf : Nat} {e : RcFault}
+    (h : ImpliedX B io ph b j k m (.reconnectFailed mf e)) : io.rc mf = .fail e := by
+  generalize ho : OutX.reconnectFailed mf e = o at h
+  induction h with
+  | sendLostNoReconnect _ hr => injection ho with e1 e2; subst e1; subst e2; exact hr
+  | lostNoReconnect _ _ hr => injection ho with e1 e2; subst e1; subst e2; exact hr
+  | sent _ _ ih => exact ih ho
+  | sendSilentRetry _ _ ih => exact ih ho
+  | sendLostRetry _ _ _ ih => exact ih ho
+  | busyRetry _ _ ih => exact ih ho
+  | silentRetry _ _ ih => exact ih ho
+  | lostRetry _ _ _ _ ih => exact ih ho
+  | pendFirst _ _ ih => exact ih ho
+  | pendAgain _ _ _ ih => exact ih ho
+  | quiet _ _ _ ih => exact ih ho
+  | silenceRetry _ _ _ ih => exact ih ho
+  | _ => cases ho
+
+/-! ### the timeouts the transport calls get -/
+
+theorem pend_all_waiting (c : Cfg) (s : Nat → Ev) (k np nt : Nat) :
+    ∀ op ∈ (pendingLoop c s k np nt).2, ∃ j d, op = .rd j c.lim.waiting d := by
+  fun_induction pendingLoop c s k np nt with
+  | case2 _ _ _ _ _ ih => simpa [consOp] using ih
+  | case8 _ _ _ _ _ ih => simpa [consOp] using ih
+  | _ => simp
+
+/-- a write gets the request timeout; a read gets the request timeout (first read of an attempt) or `waiting_time`
+    (polls, through `_read`) -/
+def TmoOk (c : CfgX) : OpX → Prop
+  | .wr a _ _ => a = c.timeout
+  | .rd _ t _ => t = c.timeout ∨ t = some c.lim.waiting
+  | _ => True
+
+theorem tmoOk_fault (c : CfgX) (io : Script) (i k m : Nat) (rc : Bool) (t : List OpX) (h : ∀ op ∈ t, TmoOk c op) :
+    ∀ op ∈ (faultX c io i k m rc t).ops, TmoOk c op := by
+  have hx : ∀ (e : List OpX), (∀ op ∈ e, TmoOk c op) → ∀ op ∈ t ++ e, TmoOk c op := by
+    intro e he op hop
+    rcases List.mem_append.mp hop with h1 | h1
+    · exact h op h1
+    · exact he op h1
+  rcases faultX_cases c io i k m rc t with ⟨_, _, h'⟩ | ⟨_, _, _, h'⟩ | ⟨e, _, _, _, h'⟩ | ⟨_, h'⟩ <;> rw [h'] <;>
+    simp only [StepX.ops]
+  · exact hx _ (by simp [TmoOk])
+  · exact hx _ (by simp [TmoOk])
+  · exact hx _ (by simp [TmoOk])
+  · exact h
+
+theorem tmoOk_lift (c : CfgX) (t : List Op) (h : ∀ op ∈ t, ∃ j d, op = .rd j c.lim.waiting d) :
+    ∀ op ∈ t.map (liftPend c), TmoOk c op := by
+  intro op hop
+  simp at hop
+  obtain ⟨o, ho, rfl⟩ := hop
+  obtain ⟨j, d, rfl⟩ := h o ho
+  exact .inr rfl
+
+theorem step_tmoOk (c : CfgX) (io : Script) (i k m : Nat) (last : Out) :
+    ∀ op ∈ (attemptStepX c io i k m last).ops, TmoOk c op := by
+  fun_cases attemptStepX c io i k m last
+  all_goals try (rename_i hp; have pw := tmoOk_lift c _ (hp ▸ pend_all_waiting c.base io.rd (k+1) 1 0))
+  all_goals first
+    | (refine tmoOk_fault c io i _ m _ _ ?_; intro op hop; simp at hop
+       rcases hop with rfl | rfl | hop <;> first | rfl | exact .inl rfl | exact pw op (by simpa using hop))
+    | (refine tmoOk_fault c io i _ m _ _ ?_; intro op hop; simp at hop
+       rcases hop with rfl | rfl <;> first | rfl | exact .inl rfl)
+    | (refine tmoOk_fault c io i _ m _ _ ?_; intro op hop; simp at hop; subst hop; rfl)
+    | (intro op hop; simp [StepX.ops] at hop
+       rcases hop with rfl | rfl | hop <;> first | rfl | exact .inl rfl | exact pw op (by simpa using hop))
+    | (intro op hop; simp [StepX.ops] at hop
+       rcases hop with rfl | rfl | rfl <;> first | rfl | exact .inl rfl | trivial)
+    | (intro op hop; simp [StepX.ops] at hop
+       rcases hop with rfl | rfl <;> first | rfl | exact .inl rfl)
+
+theorem attemptsX_tmoOk (c : CfgX) (io : Script) (i k m : Nat) (last : Out) :
+    ∀ op ∈ (attemptsX c io i k m last).2, TmoOk c op := by
+  fun_induction attemptsX c io i k m last with
+  | case1 => simp
+  | case2 i k m last _ o t hst =>
+    have := step_tmoOk c io i k m last
+    rw [hst] at this; exact this
+  | case3 i k m last _ t k' m' l hst ih =>
+    have := step_tmoOk c io i k m last
+    rw [hst] at this
+    intro op hop
+    simp only [preX, List.mem_append] at hop
+    exact hop.elim (this op) (ih op)
+
 end Gallia.ClientIO
